@@ -70,6 +70,21 @@ CLAIMED = {
                  "unreachable.  Not decided: that libstdc++ reports every write(2)/close(2) failure through the stream state."),
         "note": "Trusted: clang 14 CFG, iostream error reporting, Filename::open_write result.",
     },
+    "C04": {
+        "level": "proof",
+        "design_ref": "DESIGN.md section 3, C04 (R04.1-R04.5)",
+        "technique": "gated reachability on the CFG (sound short-circuit edge facts + bool-flag propagation), sibling-switch completeness, who-may-write",
+        "text": ("Decides the gate clause of C04 on all paths of the scan_*/define_* functions: every export sink (get_function, "
+                 "get_type(_, true), add_manifest, add_element, member/nested-type export) is unreachable once the edges establishing "
+                 "`file is S_local`, `_vis <= min_vis`, not deleted/static, !involves_protected/!in_ignoreinvolved/!involves_rvalue_reference/"
+                 "!in_ignoremember are removed (documented bypasses: forcetype, class members gated by their class, force_publish only for "
+                 "the two public cases); the involves_* predicates recurse through const/reference/pointer/typedef/function wrappers; min_vis "
+                 "is written only as V_published / V_public under -promiscuous and S_local is stored only for command-line files, the cwd "
+                 "probe and explicit files; each ignore*/forcetype command feeds the set its predicate reads.  Not decided: the parser's "
+                 "stamping of _vis (grammar behaviour) and the 'only when an exported signature refers to them' recursion - so this is the "
+                 "gate half of the iff, not the iff."),
+        "note": "Trusted: clang 14 AST/CFG; _vis and CPPFile::_source are set correctly upstream of the gates.",
+    },
 }
 
 NOT_APPLICABLE = {
